@@ -45,10 +45,10 @@ TraceReset ==
     /\ IsEvent("Reset")
     /\ lock' = [n \in Names |-> 0] /\ lc' = [n \in Names |-> 0] /\ bc' = [n \in Names |-> 0]
     /\ layers' = <<>> /\ blobs' = <<>> /\ fsd' = <<>> /\ hd' = <<>>
-    /\ hs' = [h \in H |-> Idle] /\ nres' = 0 /\ nfault' = 0
+    /\ hs' = [h \in H |-> Idle] /\ nres' = 0 /\ nfault' = 0 /\ nbreak' = 0
     /\ last' = [act |-> "Init", h |-> 0, n |-> NoName, arg |-> TRUE, ok |-> TRUE, ret |-> "", cb |-> 0]
 
-Step(e, A) == IsEvent(e) /\ A /\ ObsOK
+Step(e, A) == IsEvent(e) /\ A /\ (e # "BreakConn" => nbreak' = nbreak) /\ ObsOK
 
 TraceNext ==
     \/ TraceReset
